@@ -13,6 +13,7 @@ import (
 	"encoding/binary"
 	"encoding/hex"
 	"fmt"
+	"github.com/google/gce-tcb-verifier/sev"
 	cpb "github.com/google/go-sev-guest/proto/check"
 	tcpb "github.com/google/go-tdx-guest/proto/checkconfig"
 	"io"
@@ -280,6 +281,27 @@ func runC07(r *core.Run) {
 		case 3, 4: // attestation in some container
 			base := attestations[r.Intn(len(attestations), "container")]
 			q, o := corruptN(r, base, is.Bytes, "attestation")
+			if r.Chance(25, "attestation-field-level?") {
+				// a well-formed attestation message whose certificate-chain extras are keyed by whatever
+				// the sender liked: other spellings of the GCE GUID, other GUIDs, strings that are no GUID
+				at := SnpAttestation(meas, nil)
+				at.CertificateChain.Extras = map[string][]byte{}
+				keys := []string{sev.GCEFwCertGUID, strings.ToUpper(sev.GCEFwCertGUID), "urn:uuid:" + sev.GCEFwCertGUID, "{" + sev.GCEFwCertGUID + "}", "", "not-a-guid",
+					"00000000-0000-0000-0000-000000000000", strings.Repeat("z", 36), sev.GCEFwCertGUID + " "}
+				var picked []string
+				for j, n := 0, 1+r.Intn(3, "extras"); j < n; j++ {
+					k := keys[r.Intn(len(keys), "extras-key")]
+					at.CertificateChain.Extras[k] = [][]byte{is.Bytes, nil, []byte("x")}[r.Intn(3, "extras-value")]
+					picked = append(picked, fmt.Sprintf("%q", k))
+				}
+				var raw []byte
+				if r.Bool("bare-attestation") {
+					raw, _ = proto.Marshal(at)
+				} else {
+					raw, _ = proto.Marshal(&tpmpb.Attestation{TeeAttestation: &tpmpb.Attestation_SevSnpAttestation{SevSnpAttestation: at}})
+				}
+				q, o = raw, "field:extras-keys="+strings.Join(picked, "+")
+			}
 			q = r.Blob(fmt.Sprintf("in%d", i), func() []byte { return q })
 			ops, inputLen = o, len(q)
 			switch r.Intn(5, "attestation-entry") {
